@@ -136,6 +136,16 @@ impl<R: BufRead + Seek + Position> ReadValue for ValueReader<R> {
         &mut self,
         len: usize,
     ) -> Result<<Self::Types as FieldTypes>::Bytes, ProtobufError> {
+        // `len` comes from the input. Before making a large allocation,
+        // check that the input really has that many bytes left.
+        if len > MAX_UNCHECKED_ALLOC {
+            let pos = self.inner.stream_position()?;
+            let end = self.inner.seek(SeekFrom::End(0))?;
+            self.inner.seek(SeekFrom::Start(pos))?;
+            if end.saturating_sub(pos) < len as u64 {
+                return Err(ProtobufError::new(ErrorKind::Eof));
+            }
+        }
         let mut buf = vec![0; len];
         self.inner.read_exact(&mut buf)?;
         Ok(buf)
@@ -150,7 +160,15 @@ impl<R: BufRead + Seek + Position> ReadValue for ValueReader<R> {
     }
 
     fn skip(&mut self, len: usize) -> Result<(), ProtobufError> {
-        self.inner.seek_relative(len as i64)?;
+        let Some(last) = len.checked_sub(1) else {
+            return Ok(());
+        };
+        let offset = i64::try_from(last).map_err(|_| ProtobufError::new(ErrorKind::Eof))?;
+        self.inner.seek_relative(offset)?;
+        // Seeking past the end of the input succeeds, so read the last skipped
+        // byte to make sure that the skipped range exists.
+        let mut last_byte = [0; 1];
+        self.inner.read_exact(&mut last_byte)?;
         Ok(())
     }
 
@@ -158,6 +176,10 @@ impl<R: BufRead + Seek + Position> ReadValue for ValueReader<R> {
         self.inner.position()
     }
 }
+
+/// Largest `bytes` or `string` field that is allocated without first checking
+/// that the input contains that many bytes.
+const MAX_UNCHECKED_ALLOC: usize = 1 << 20;
 
 /// Trait for readers that can report their current position cheaply.
 ///
@@ -248,30 +270,54 @@ impl<R: BufRead> Position for ReadPos<R> {
 pub(crate) struct LimitReader<'a, R: ReadValue> {
     inner: &'a mut R,
     end: u64,
+    depth: u32,
 }
+
+/// Maximum nesting of limit readers. Each embedded message uses two levels,
+/// so this allows messages nested 100 deep, like other Protocol Buffers
+/// implementations.
+const MAX_DEPTH: u32 = 200;
 
 impl<'a, R: ReadValue> LimitReader<'a, R> {
     /// Create a reader which reads up to `len` bytes of `inner`.
     pub fn new(inner: &'a mut R, len: u64) -> Self {
         Self {
-            end: inner.position() + len,
+            end: inner.position().saturating_add(len),
             inner,
+            depth: 0,
         }
     }
 
     /// Create a sub-reader which reads up to `len` bytes of this reader.
-    pub fn sub_limit(&mut self, len: u64) -> LimitReader<'_, R> {
-        LimitReader {
-            end: self.inner.position() + len,
-            inner: self.inner,
+    ///
+    /// Fails if `len` extends beyond the limit of this reader.
+    pub fn sub_limit(&mut self, len: u64) -> Result<LimitReader<'_, R>, ProtobufError> {
+        self.check_has_bytes(len)?;
+        if self.depth >= MAX_DEPTH {
+            return Err(ProtobufError::new(ErrorKind::NestingTooDeep));
         }
+        let end = self.inner.position() + len;
+        // `u64::MAX` means "no limit" (see `may_end_here`).
+        if end == u64::MAX {
+            return Err(ProtobufError::new(ErrorKind::Eof));
+        }
+        Ok(LimitReader {
+            end,
+            inner: self.inner,
+            depth: self.depth + 1,
+        })
     }
 
-    fn check_has_bytes(&self, len: usize) -> Result<(), ProtobufError> {
-        if self.position() + (len as u64) <= self.end {
-            Ok(())
-        } else {
-            Err(ProtobufError::new(ErrorKind::Eof))
+    /// Return true if the end of the input is a valid place for the data
+    /// covered by this reader to end.
+    pub fn may_end_here(&self) -> bool {
+        self.end == u64::MAX || self.position() >= self.end
+    }
+
+    fn check_has_bytes(&self, len: u64) -> Result<(), ProtobufError> {
+        match self.position().checked_add(len) {
+            Some(end) if end <= self.end => Ok(()),
+            _ => Err(ProtobufError::new(ErrorKind::Eof)),
         }
     }
 }
@@ -301,7 +347,7 @@ impl<'a, R: ReadValue> ReadValue for LimitReader<'a, R> {
         &mut self,
         len: usize,
     ) -> Result<<Self::Types as FieldTypes>::Bytes, ProtobufError> {
-        self.check_has_bytes(len)?;
+        self.check_has_bytes(len as u64)?;
         let bytes = self.inner.read_bytes(len)?;
         Ok(bytes)
     }
@@ -310,13 +356,13 @@ impl<'a, R: ReadValue> ReadValue for LimitReader<'a, R> {
         &mut self,
         len: usize,
     ) -> Result<<Self::Types as FieldTypes>::String, ProtobufError> {
-        self.check_has_bytes(len)?;
+        self.check_has_bytes(len as u64)?;
         let string = self.inner.read_string(len)?;
         Ok(string)
     }
 
     fn skip(&mut self, len: usize) -> Result<(), ProtobufError> {
-        self.check_has_bytes(len)?;
+        self.check_has_bytes(len as u64)?;
         self.inner.skip(len)?;
         Ok(())
     }
